@@ -171,7 +171,7 @@ func liveHeap() uint64 {
 func c03RetainedOverHistory(c *h.Ctx, name string, seed []byte, f func([]byte) bool) {
 	n := 5000
 	if c.Thorough() {
-		n = 30000
+		n = 12000
 	}
 	if len(seed) < 2+49+32+16 {
 		return
